@@ -267,7 +267,8 @@ _ALSO = {
             "exactly the `nil` / `t` the parser options give a meaning to or ends in the postfix-keyword colon - case variants "
             "(`NIL`, `Nil`, `T`) included (decision table over 13 texts x option values, shared with C08); under each of the six "
             "combinations of vector syntax and bytes syntax a byte vector is written in the notation its bytes syntax "
-            "documents (`#vu8(`, `#u8(`, unibyte string), never in the bracket notation of generic vectors.", None),
+            "documents (`#vu8(`, `#u8(`, unibyte string), never in the bracket notation of generic vectors; the integer boundary "
+            "magnitudes keep their representation when read (shared with C01 / C05).", None),
     "C03": ("the reader's lookahead byte is discarded only right after a peek that returned a byte (typestate over all "
             "abstract paths, with a fixpoint over functions that start by discarding); helpers the counter logic is split "
             "into (enter/leave style) are summarised by outcome (result variant, delta, tested) and accounted for at each "
